@@ -39,8 +39,10 @@ template <class T,int index>
 static FixedArray<T>
 Vec4Array_get(FixedArray<IMATH_NAMESPACE::Vec4<T> > &va)
 {
-    return FixedArray<T>(&(va.unchecked_index(0)[index]),
-                         va.len(), 4*va.stride(), va.handle(), va.writable());
+    FixedArray<T> r(&(va.unchecked_direct_index(0)[index]),
+                    va.len(), 4*va.stride(), va.handle(), va.writable());
+    r.shareMaskOf (va);
+    return r;
 }
 
 template <class T>
